@@ -35,7 +35,7 @@ DELAY_RULES = ("da-stdpd", "da-kerneld", "da-mstdpd", "da-kerneld-t")
 
 
 def make(rule, sign, reduction=identity_reduction):
-    sp, sn = SIGNS[sign]
+    sp, sn = signs_of(sign)
     lp, ln = sp * LRP, sn * LRN
     kp = dict(learning_rate=lp, time_constant=TCP)
     kn = dict(learning_rate=ln, time_constant=TCN)
@@ -68,12 +68,20 @@ def make(rule, sign, reduction=identity_reduction):
     raise ValueError(rule)
 
 
+# learning-rate pairs with one side switched off exactly (only used for per-cell overrides: an override of exactly 0.0 is a value)
+SIGNS_ZERO = {"posonly": (1.0, 0.0), "negonly": (0.0, -1.0)}
+
+
+def signs_of(sign):
+    return SIGNS[sign] if sign in SIGNS else SIGNS_ZERO[sign]
+
+
 def make_overridden(rule, sign):
     """trainer built with decoy defaults (opposite signs, swapped magnitudes and time constants, another reduction) plus the
     register_cell overrides that give the cell the hyper-parameters of ``make(rule, sign)``"""
-    sp, sn = SIGNS[sign]
+    sp, sn = signs_of(sign)
     lp, ln = sp * LRP, sn * LRN
-    dlp, dln = -sp * LRN, -sn * LRP
+    dlp, dln = -(sp or 1.0) * LRN, -(sn or -1.0) * LRP  # decoys are never zero
     kp, kn = dict(learning_rate=lp, time_constant=TCP), dict(learning_rate=ln, time_constant=TCN)
     dkp, dkn = dict(learning_rate=dlp, time_constant=TCN), dict(learning_rate=dln, time_constant=TCP)
     red = dict(batch_reduction=identity_reduction)
@@ -94,7 +102,7 @@ def make_overridden(rule, sign):
 
 def reference(rule, sign, dt, pre_syn, post, Ks, signals, gamma, parts=False):
     """pre_syn (T,B,N,L), post (T,B,F,L) bool; Ks list of (F,N) delays in TIME per step; -> (T,B,F,N) signed update of step t"""
-    sp, sn = SIGNS[sign]
+    sp, sn = signs_of(sign)
     lp, ln = sp * LRP, sn * LRN
     rule = {"da-kernel-t": "da-kernel", "da-kerneld-t": "da-kerneld", "kernel-t": "kernel"}.get(rule, rule)
     T, B, N, L = pre_syn.shape
@@ -388,7 +396,7 @@ def run(rep):
             jobs.append((multicell_shard, (rule, sign, 3 if quick else 4)))
     # hyper-parameters given as per-cell overrides of a trainer constructed with decoy defaults
     for rule in ("da-stdp", "da-stdpd", "da-mstdp", "da-mstdpd", "da-kernel", "da-kerneld"):
-        for sign in SIGNS:
+        for sign in list(SIGNS) + (list(SIGNS_ZERO) if rule in ("da-stdp", "da-stdpd", "da-mstdp", "da-mstdpd") else []):
             jobs.append((shard, (rule + "+ov", "dense", (1, 1), T1 - 1, 1.0, sign, "const")))
     # kernel keyword arguments passed as tensors
     for rule in ("da-kernel-t", "da-kerneld-t"):
